@@ -7,8 +7,8 @@ import VerifModel.Model.DetMetrics
   Model of verif/output.py (C16): for each modelled diagram, the SERIES IT DRAWS as a pure
   function of the valid cases that `Data.get_scores` hands to the diagram.  Hand-written mirror of
   the code's computation, including its bin-edge conventions, minimum-count rules, the end points
-  added to the ROC curve and the sorting.  Decoration (diagonals, rings, confidence bands, labels)
-  is not modelled.
+  added to the ROC curve and the sorting.  Decoration (diagonals, rings, labels) is not modelled; the
+  shaded band of util.fill is (`fillPolygon`: the polygon's vertices), and ObsFcst's quantile bands with it.
 
   Bin conventions found in the code:
     memHist e_i ≤ x < e_{i+1}, the last bin also contains its upper edge (np.histogram's bins)
@@ -107,12 +107,45 @@ def sortSeries (v : Vec) : Vec × Vec := (Vec.sort v, linspace100 v.length)
 /-- per-slice mean (ObsFcst, QQ/Scatter with -x) -/
 def sliceMeans (sl : List Vec) : Vec := sl.map Vec.mean
 
-/-- ObsFcst: the observation line of input 0, then one forecast line per input (and its quantile lines) -/
+/-! ### util.fill: the shaded band between two envelopes -/
+
+/-- `not (np.isnan(x[i]) or np.isnan(y[i]))` -/
+def fillKeep (x y : XR) : Bool := !(x.isNan || y.isNan)
+
+/-- the first loop of util.fill: `for i in range(0, len(x))`, appending the non-missing (x, y_lower) points -/
+def fillFwd : Vec → Vec → List (XR × XR)
+  | x :: xs, y :: ys => if fillKeep x y then (x, y) :: fillFwd xs ys else fillFwd xs ys
+  | _, _ => []
+
+/-- the second loop of util.fill: `for i in range(len(x) - 1, -1, -1)`, appending the non-missing
+(x, y_upper) points; written as a walk from the front that pushes onto what comes later -/
+def fillBwd : Vec → Vec → List (XR × XR) → List (XR × XR)
+  | x :: xs, y :: ys, acc => fillBwd xs ys (if fillKeep x y then (x, y) :: acc else acc)
+  | _, _, acc => acc
+
+/-- util.fill(x, y_lower, y_upper, …): the vertices (X[k], Y[k]) handed to `mpl.fill` (nothing is drawn
+when the list is empty).  Each envelope is filtered on its OWN missing values. -/
+def fillPolygon (xs lower upper : Vec) : List (XR × XR) :=
+  fillFwd xs lower ++ fillBwd xs upper []
+
+/-- the band as an artist: nothing when there is no vertex -/
+def fillSeries (xs lower upper : Vec) : List Series :=
+  let p := fillPolygon xs lower upper
+  if p.isEmpty then [] else [{ ax := 0, kind := "poly", label := "_", xs := p.map (·.1), ys := p.map (·.2) }]
+
+/-- ObsFcst with -q: band i lies between the i-th and the i-th last quantile line (`len(q) // 2` bands) -/
+def obsfcstBands (ax : Vec) (qs : List (String × List Vec)) : List Series :=
+  (List.range (qs.length / 2)).flatMap fun i =>
+    fillSeries ax (sliceMeans ((qs[i]?).map (·.2) |>.getD [])) (sliceMeans ((qs[qs.length - 1 - i]?).map (·.2) |>.getD []))
+
+/-- ObsFcst: the observation line of input 0, then per input its forecast line, its quantile lines and the
+bands between them -/
 def obsfcstSeries (ax : Vec) (obs0 : List Vec) (ins : List (List Vec × List (String × List Vec))) : List Series :=
   { ax := 0, kind := "line", label := "Observed", xs := ax, ys := sliceMeans obs0 } ::
   perInput (fun k (i : List Vec × List (String × List Vec)) =>
     { ax := 0, kind := "line", label := inName k, xs := ax, ys := sliceMeans i.1 } ::
-      i.2.map fun q => { ax := 0, kind := "line", label := inName k ++ "_" ++ q.1, xs := ax, ys := sliceMeans q.2 }) ins
+      (i.2.map fun q => { ax := 0, kind := "line", label := inName k ++ "_" ++ q.1, xs := ax, ys := sliceMeans q.2 }) ++
+      obsfcstBands ax i.2) ins
 
 /-- Hist: percentage of the binned values per interval of the -b bin type -/
 def histCountsIv (ivs : List Interval) (v : Vec) : List Nat :=
